@@ -18,7 +18,7 @@ def gen_history(rng, maxlen, kind="m"):
         r = rng.random()
         key = rng.choice(KEYS[:6]) if rng.random() < 0.95 else rng.choice(pool)
         if r < 0.3:
-            ops.append(["insert", key if rng.random() < 0.6 else None, [rng.randint(-3, 3) for _ in range(rng.randint(1, 3))], rng.random() < 0.6])
+            ops.append(["insert", key if rng.random() < 0.6 else None, [rng.randint(-3, 3) for _ in range(rng.choice([0, 1, 1, 2, 3]))], rng.random() < 0.6])      # also tables without rows
         elif r < 0.45:
             ops.append(["remove", key])
         elif r < 0.7:
@@ -46,7 +46,7 @@ def run_impl(kind, ops):
         for o in ops:
             try:
                 if o[0] == "insert":
-                    td = sp.insert(key=o[1], value=pd.DataFrame({"x": o[2]}), allow_overwrite=o[3])
+                    td = sp.insert(key=o[1], value=pd.DataFrame({"x": o[2]}) if len(o[2]) else pd.DataFrame({"x": pd.Series([], dtype="int64")}), allow_overwrite=o[3])
                     outs.append(["key", td.table_name])
                 elif o[0] == "remove":
                     sp.remove(o[1]); outs.append(["unit"])
@@ -206,7 +206,7 @@ def run(chk):
     chk.cov["trusted_base"] = ["Coq 8.16.1 kernel + vm_compute", "hand models Model/DataSpace.v of DataModelSpace and DBSpace (state machines; the database handle is a map from table names to tables, "
                                "pipeline evaluation an abstract function of the current contents)", "f\"da_temp_{n}\" injective in n (theorem hypothesis name_of_inj)",
                                "correspondence harness harness/props/C20.py; SQLite 3.40 in-memory database behind DBSpace", "DBSpace.close()/drop_tables_on_close and model_table() are not modelled"]
-    chk.assumptions = ["tables in histories are one integer column; pipelines are `read table k, x := x + c`", "DBSpace starts from an empty database (tables unknown to the space are outside the property)"]
+    chk.assumptions = ["tables in histories are one integer column with 0..3 rows; pipelines are `read table k, x := x + c`", "DBSpace starts from an empty database (tables unknown to the space are outside the property)"]
     chk.cov["rule"] = ("random histories of 1..12 (quick) / 1..40 (thorough) operations insert/remove/execute/retrieve/describe/keys over user keys that include da_temp_1..3,10 "
                        "(40% automatic keys), run on DataModelSpace and on DBSpace(SQLite); non-trivial = >=3 operations incl. a write; distinct by content")
     maxlen = 12 if chk.tier == "quick" else 40
